@@ -69,6 +69,15 @@ Section Premises.
   Theorem C04_resumed_server_binds :
     forall c s, server_res_ok term PRF pair Hh fin_msg eqb c s = true -> v_tr_cke c = v_tr_cke s /\ v_pms c = v_pms s.
   Proof. exact (resumed_server_binds term PRF pair Hh fin_msg eqb PRF_inj pair_inj H_inj eqb_spec). Qed.
+
+  (* A: a server that negotiates from the second ClientHello (the head of its transcript) negotiates from
+     what the client sent whenever the client completes - nothing done to the first, cookie-less ClientHello
+     (which is in no transcript, RFC 6347 4.2.1) can steer it *)
+  Theorem C04_negotiation_input_bound :
+    forall chk c s ch1, v_tr_cke c <> [] -> v_tr_cke s <> [] ->
+      client_full_ok term PRF pair Hh fin_msg eqb chk c s = true ->
+      server_neg_input term true ch1 s = hd ch1 (v_tr_cke c).
+  Proof. exact (negotiation_input_bound term PRF pair Hh fin_msg eqb PRF_inj H_inj eqb_spec). Qed.
 End Premises.
 
 Print Assumptions C04_finished_binds_transcript.
@@ -79,6 +88,7 @@ Print Assumptions C04_ems_binds.
 Print Assumptions C04_ems_flag_mismatch_blocks.
 Print Assumptions C04_resumed_client_binds.
 Print Assumptions C04_resumed_server_binds.
+Print Assumptions C04_negotiation_input_bound.
 
 (* F5, decision-function level: the server's verdict does not depend on the client's verify_data *)
 Theorem C04_server12_ignores_client_verify_data :
@@ -108,6 +118,25 @@ Theorem C04_server_full_handshake_as_coded :
          s_client_full_ok server12_checks_client_finished c s = false.
 Proof. exact server_full_handshake_as_coded. Qed.
 Print Assumptions C04_server_full_handshake_as_coded.
+
+(* A, before /repo 6f00c2b: both endpoints complete with equal transcripts and keys while the server
+   negotiated from a first ClientHello the client never sent *)
+Theorem C04_negotiation_from_first_hello_refuted :
+  exists (c s : view sterm) (ch1_received : sterm),
+    s_client_full_ok true c s = true /\ s_server_full_ok true c s = true /\ v_tr_cke c = v_tr_cke s /\
+    server_neg_input sterm false ch1_received s <> hd ch1_received (v_tr_cke c) /\
+    server_neg_input sterm true ch1_received s = hd ch1_received (v_tr_cke c).
+Proof. exact negotiation_from_first_hello_refuted. Qed.
+Print Assumptions C04_negotiation_from_first_hello_refuted.
+
+Theorem C04_negotiation_input_as_coded :
+  if server12_negotiates_from_second_hello
+  then forall chk c s ch1, v_tr_cke c <> [] -> v_tr_cke s <> [] -> s_client_full_ok chk c s = true ->
+         server_neg_input sterm server12_negotiates_from_second_hello ch1 s = hd ch1 (v_tr_cke c)
+  else exists (c s : view sterm) ch1, s_client_full_ok true c s = true /\ s_server_full_ok true c s = true /\
+         server_neg_input sterm server12_negotiates_from_second_hello ch1 s <> hd ch1 (v_tr_cke c).
+Proof. exact negotiation_input_as_coded. Qed.
+Print Assumptions C04_negotiation_input_as_coded.
 
 (* the premises are satisfiable (free term algebra), and the witness is stopped by the fix, by EMS
    and by client authentication *)
